@@ -92,6 +92,39 @@ def r06_2(ctx, counts: dict[str, int]) -> RuleResult:
                     continue
                 n += 1
                 subject = stmt_text(x.func.value)
+                mode_name = [k.value for k in x.keywords if k.arg == 'rounding'
+                             and isinstance(k.value, ast.Name)]
+                if mode_name:
+                    # the mode is chosen beforehand: judge each constant definition of the
+                    # variable where it is assigned
+                    defs = [(d, d.ast.value.value) for d in cfg.nodes
+                            if d.kind == 'stmt' and isinstance(d.ast, ast.Assign)
+                            and any(isinstance(t, ast.Name) and t.id == mode_name[0].id
+                                    for t in d.ast.targets)
+                            and isinstance(d.ast.value, ast.Constant)
+                            and isinstance(d.ast.value.value, str)]
+                    all_defs = [d for d in cfg.nodes if d.kind == 'stmt'
+                                and isinstance(d.ast, (ast.Assign, ast.AugAssign, ast.AnnAssign))
+                                and any(isinstance(t, ast.Name) and t.id == mode_name[0].id
+                                        for t in ast.walk(d.ast) if isinstance(t, ast.Name)
+                                        and isinstance(t.ctx, ast.Store))]
+                    if defs and len(defs) == len(all_defs):
+                        verdicts = []
+                        for d, m_ in defs:
+                            fs_d = facts[d.id]
+                            pos_d = any(ft in (f'+{subject} > 0', f'-{subject} <= 0')
+                                        for ft in fs_d)
+                            neg_d = any(ft in (f'-{subject} > 0', f'+{subject} <= 0',
+                                               f'+{subject} < 0') for ft in fs_d)
+                            verdicts.append((m_ == 'ROUND_HALF_UP' and pos_d)
+                                            or (m_ == 'ROUND_HALF_DOWN' and neg_d))
+                        res.instances.append(f'{f.key}: {subject}.quantize(rounding='
+                                             f'{mode_name[0].id}) with {len(defs)} constant '
+                                             f'definitions, each on its side of the sign test: '
+                                             f'{all(verdicts)}')
+                        if all(verdicts):
+                            res.ok()
+                            continue
                 fs = facts[nd.id]
                 pos = any(ft == f'+{subject} > 0' or ft == f'-{subject} <= 0' for ft in fs)
                 neg = any(ft == f'-{subject} > 0' or ft == f'+{subject} <= 0'
